@@ -206,7 +206,8 @@ def gen(sh):
     g("  obtain %s := hpb" % mem_pat("r"))
     g("  bord\n")
     g("theorem %s.intersectsBox_symm (a b : %s α) : Gen.%s.intersectsBox a b = Gen.%s.intersectsBox b a := by" % (S, S, S, S))
-    g("  unfold Gen.%s.intersectsBox; split_ifs <;> first | rfl | (exfalso; bord)\n" % S)
+    g("  rw [Bool.eq_iff_iff]")
+    g("  simp only [Gen.%s.intersectsBox, ite_false_iff, ite_false'_iff, ite_true_iff, ite_true'_iff, not_lt, not_le, and_assoc, and_true,\n    Bool.false_eq_true, or_false, false_and, and_false, imp_false] <;> tauto\n" % S)
     wit = P(["max %s %s" % (f("a.min", a), f("b.min", a)) for a in A])
     w("theorem %s.common_of_axes (a b : %s α) (ha : ¬ %s.Inverted a) (hb : ¬ %s.Inverted b)\n    (h : %s) :\n    ∃ p, %s.Mem p a ∧ %s.Mem p b := by"
       % (S, S, S, S, axes_rhs, S, S))
